@@ -67,6 +67,7 @@ type (
 
 		logger    log4g.Logger
 		lock      sync.Mutex
+		saveLock  sync.Mutex // serializes savePipes(): the registry is written in the order its snapshots are taken
 		closedCh  chan struct{}
 		closedCtx context.Context
 		psr       *persister
@@ -264,6 +265,9 @@ func (s *Service) ensurePipe(p Pipe, changeOk bool) (PipeDesc, error) {
 }
 
 func (s *Service) savePipes() {
+	// a snapshot taken earlier must not be written later: hold the lock from the snapshot to the end of the write
+	s.saveLock.Lock()
+	defer s.saveLock.Unlock()
 	s.logger.Info("Saving information about ", len(s.ppipes), " pipes")
 	s.lock.Lock()
 	ss := make([]Pipe, 0, len(s.ppipes))
